@@ -231,6 +231,26 @@ class Run:
         if os.path.exists(sj):
             per = json.load(open(sj))["per_shard"]
         mism = []
+        # the case files may import model files that no theorem depends on: build them first
+        if os.path.exists(sj):
+            hdr = json.load(open(sj)).get("header", "")
+            mods = set()
+            for stmt in re.split(r"\.\s+|\.$", hdr.replace("\n", " ") + " "):
+                toks = stmt.split()
+                if len(toks) >= 3 and toks[0] == "From" and toks[1] == "Verif" and toks[2] == "Require":
+                    for tok in toks[3:]:
+                        if tok not in ("Import", "Export"):
+                            mods.add(tok)
+                elif len(toks) >= 2 and toks[0] == "Require":
+                    for tok in toks[1:]:
+                        if tok.startswith("Verif."):
+                            mods.add(tok[len("Verif."):])
+            targets = [m.replace(".", "/") + ".vo" for m in sorted(mods) if os.path.exists(os.path.join(COQ, m.replace(".", "/") + ".v"))]
+            if targets:
+                rb = sh([os.path.join(BIN, "coqbuild")] + targets, env=env())
+                if rb.returncode != 0:
+                    self.failures.append({"kind": "correspondence", "what": "model files needed by the case files do not build: %s" % rb.stdout[-600:],
+                                          "broken": "correspondence stream %s (model build)" % name})
 
         def one(path):
             rr = sh(["timeout", "1800", "coqc", "-Q", COQ, "Verif", "-w", "-notation-overridden", path], cwd=outdir)
